@@ -10,7 +10,8 @@ import (
 func (k SettlementKeeper) GetParams(ctx sdk.Context) (params types.Params) {
 	k.paramstore.GetParamSet(ctx, &params)
 	if params.GasPrices == nil {
-		return types.DefaultParams()
+		// no gas price configured: the default prices apply; the other parameters are what they are set to
+		params.GasPrices = types.DefaultParams().GasPrices
 	}
 
 	return params
